@@ -130,6 +130,11 @@ void Ruleset::prerun(OomdContext& context) {
   for (const auto& action : action_group_) {
     action->prerun(context);
   }
+  // per-cgroup instances of a ruleset-level cgroup keep their own plugin
+  // state, which must see prerun() every interval as well
+  for (const auto& runnable : runnable_rulesets_) {
+    runnable.second->prerun(context);
+  }
 }
 
 uint32_t Ruleset::runOnce(OomdContext& context) {
